@@ -830,6 +830,7 @@ def check_batch(case, ctx):
 
 def check_defaults(case, ctx):
     from nanite.cli import profile
+    ctx.note_case(case, nontrivial=False, classes=["defaults"])
     ctx.check(profile.DEFAULTS == PINNED_DEFAULTS, "defaults-changed", {},
               f"profile defaults {profile.DEFAULTS} differ from the documented ones")
     d = fresh_path(ctx, "defaults")
@@ -847,8 +848,16 @@ def check_defaults(case, ctx):
 # ---------------------------------------------------------------------------
 # strategies
 
-def strategies():
+def strategies(k=0):
+    """``k`` rotates the option lists of the batch scripts: Hypothesis starts every run with the
+    simplest example (first option everywhere), which would otherwise be the same batch fit in
+    every shard"""
     tab = model_table()
+
+    def rot(seq):
+        seq = list(seq)
+        return seq[k % len(seq):] + seq[:k % len(seq)]
+
     D = decls()
     from nanite import rate
     steps = sorted(D)
@@ -885,8 +894,7 @@ def strategies():
             return st.floats(-1e-11, 1e-11) if friendly else st.floats(-1e-8, 1e-8)
         return st.floats(max(lo, -1e3), min(hi, 1e3))
 
-    closed_sels = st.lists(st.sampled_from(steps), min_size=1, max_size=len(steps), unique=True)
-    any_sel = closed_sels
+    any_sel = st.lists(st.sampled_from(steps), min_size=1, max_size=len(steps), unique=True)
 
     def close_sel(sel):
         out = list(sel)
@@ -985,8 +993,8 @@ def strategies():
     def num(s, digits=4):
         return s.map(lambda v: repr(round(v, digits)))
 
-    def answer_or_skip(s, p=0.5):
-        return st.one_of(st.just(""), s) if p >= 0.5 else st.one_of(st.just(""), st.just(""), s)
+    def answer_or_skip(s):
+        return st.one_of(st.just(""), s)
 
     def run_record(friendly=False):
         vary_ok = st.sampled_from(["true", "false", "True", "False", "TRUE", " false "])
@@ -1008,8 +1016,8 @@ def strategies():
             left = answer_or_skip(num(st.floats(-6.0, -1.5), 2))
             right = answer_or_skip(num(st.floats(1.0, 6.0), 2))
             weight = answer_or_skip(num(st.floats(0.0, 1.0), 3) | st.just("0"))
-            rtype = st.sampled_from([[], [], ["absolute"], ["relative"], ["relative"]])
-            training = st.sampled_from([[], [], ["zef18"], ["@user"], ["nope", "@user"]])
+            rtype = st.sampled_from(rot([["relative"], [], ["absolute"], ["relative"], []]))
+            training = st.sampled_from(rot([["@user"], [], ["zef18"], [], ["nope", "@user"]]))
         else:
             pre = st.one_of(st.just([]), any_sel.map(lambda s: [s]), valid_sel.map(lambda s: [s]),
                             fittable_sel.map(lambda s: [s]), st.tuples(any_sel, valid_sel | st.just([])).map(list))
@@ -1023,10 +1031,12 @@ def strategies():
                                         ["@emptydir", "zef18"], ["nope", "@emptydir", ""]])
         return st.fixed_dictionaries({
             "preprocessing": pre, "sep": st.sampled_from([",", ",", ", "]),
-            "model": st.one_of(st.none(), st.sampled_from(models), st.sampled_from(models)) if friendly
+            "model": st.one_of(st.sampled_from(rot(models)), st.none()) if friendly
             else st.one_of(st.none(), st.sampled_from(models)),
             "params": params, "range_type": rtype, "left": left, "right": right, "weight": weight,
-            "training": training, "regressor": st.one_of(st.none(), st.sampled_from(regs))})
+            "training": training,
+            "regressor": st.one_of(st.sampled_from(rot(regs)), st.none()) if friendly
+            else st.one_of(st.none(), st.sampled_from(regs))})
 
     start_setup = st.one_of(
         st.just("fresh"), st.just("fresh"),
@@ -1060,7 +1070,7 @@ ORACLES = {"history": check_history, "legacy": check_legacy, "setup": check_setu
 
 
 def run(ctx):
-    S = strategies()
+    S = strategies(ctx.shard + ctx.seed)
     if ctx.shard == 0:
         ctx.direct(check_defaults, {"kind": "defaults"}, label="defaults")
     ctx.hypothesis(S["history"], check_history, ctx.scale(600, 40000), label="history")
